@@ -190,6 +190,7 @@ class VariantInterval(AbstractFeatureInterval):
             vals["variant_name"],
             vals["variant_id"],
             vals["qualifiers"],
+            parent_or_seq_chunk_parent,
         )
 
     @property
